@@ -182,8 +182,18 @@ class Model:
 
         if self.sup_model.vars:
 
+            num_rand = self.sup_model.vars[-1].last
+            for dvar in self.dec_vars:
+                if (dvar.rand_adapt is not None and
+                        dvar.rand_adapt.shape[1] < num_rand):
+                    # random variables declared after adapt()
+                    extra = num_rand - dvar.rand_adapt.shape[1]
+                    dvar.rand_adapt = np.concatenate(
+                        (dvar.rand_adapt,
+                         np.zeros((dvar.rand_adapt.shape[0], extra),
+                                  dtype=np.int8)), axis=1)
             adapt_list = [dvar.rand_adapt if dvar.rand_adapt is not None else
-                          np.zeros((dvar.size, self.sup_model.vars[-1].last))
+                          np.zeros((dvar.size, num_rand))
                           for dvar in self.dec_vars]
             depend_mat = np.concatenate(adapt_list, axis=0)
             if depend_mat.sum() > 0:
